@@ -13,6 +13,8 @@ Import-free, executable.  This is the state `σ` the lock model of C05 runs over
   from the uncommitted log records (`Wal::last_pending_ops`), extended by the handle's own
   operations, folded into `committed` by `commit` (last add per id wins, delete removes),
   cleared by `commit`/`rollback`;
+* `snaps[h]` — the manifest snapshot a handle takes at the start of `commit` and publishes
+  from (this is what makes an unlocked interleaving lose updates);
 * `results` — the result of every call in execution order (`add_document` returns the number
   of queued adds minus one; an invalid document is rejected before anything is logged).
 
@@ -83,6 +85,8 @@ structure St (ι δ : Type) where
   wal       : List (Op ι δ)
   queues    : List (List (Op ι δ))
   results   : List Res
+  /-- `manifest_snapshot` of the handle that is inside `commit` (handle ↦ copy of `committed`) -/
+  snaps     : List (Nat × Map ι δ) := []
 deriving Repr
 
 section
@@ -92,12 +96,26 @@ def St.queue (s : St ι δ) (h : Nat) : List (Op ι δ) := s.queues.getD h []
 
 def St.log (s : St ι δ) (r : Res) : St ι δ := { s with results := s.results ++ [r] }
 
-/-- `commit`, first half: fold the queue into the committed contents (new segment +
-tombstones + manifest store + in-memory publish) -/
-def publish (h : Nat) (s : St ι δ) : St ι δ :=
-  if (s.queue h).isEmpty then s else { s with committed := applyOps s.committed (s.queue h) }
+def getSnap (snaps : List (Nat × Map ι δ)) (h : Nat) : Map ι δ :=
+  match snaps with
+  | [] => []
+  | p :: r => if p.1 = h then p.2 else getSnap r h
 
-/-- `commit`, second half: commit marker + log truncation, `pending_ops.clear()` -/
+def setSnap (snaps : List (Nat × Map ι δ)) (h : Nat) (m : Map ι δ) : List (Nat × Map ι δ) :=
+  (h, m) :: snaps.filter (fun p => !(p.1 == h))
+
+/-- `commit`, step 1: `manifest_snapshot = inner.manifest.read().clone()` (nothing queued:
+`commit` returns before taking it) -/
+def snapshot (h : Nat) (s : St ι δ) : St ι δ :=
+  if (s.queue h).isEmpty then s else { s with snaps := setSnap s.snaps h s.committed }
+
+/-- `commit`, step 2: fold the queue into **the snapshot** and publish the result (new segment +
+tombstones + manifest store + in-memory swap) -/
+def publish (h : Nat) (s : St ι δ) : St ι δ :=
+  if (s.queue h).isEmpty then s
+  else { s with committed := applyOps (getSnap s.snaps h) (s.queue h) }
+
+/-- `commit`, step 3: commit marker + log truncation, `pending_ops.clear()` -/
 def settle (h : Nat) (s : St ι δ) : St ι δ :=
   if (s.queue h).isEmpty then s.log .ok
   else ({ s with wal := [], queues := s.queues.set h [] } : St ι δ).log .ok
@@ -114,20 +132,20 @@ def exec (s : St ι δ) : Call ι δ → St ι δ
   | .delete h ids =>
     let ops : List (Op ι δ) := ids.map .del
     ({ s with wal := s.wal ++ ops, queues := s.queues.set h (s.queue h ++ ops) } : St ι δ).log .ok
-  | .commit h => settle h (publish h s)
+  | .commit h => settle h (publish h (snapshot h s))
   | .rollback h => ({ s with wal := [], queues := s.queues.set h [] } : St ι δ).log .ok
   | .compact => s.log .ok
 
-/-- the steps a call performs inside the lock (commit has two) -/
+/-- the steps a call performs inside the lock (commit has three) -/
 def stepsOf : Call ι δ → List (St ι δ → St ι δ)
-  | .commit h => [publish h, settle h]
+  | .commit h => [snapshot h, publish h, settle h]
   | c => [fun s => exec s c]
 
 /-- serial execution -/
 def runSerial (s : St ι δ) (cs : List (Call ι δ)) : St ι δ := cs.foldl exec s
 
 def init (committed : Map ι δ) (handles : Nat) : St ι δ :=
-  { committed := committed, wal := [], queues := List.replicate handles [], results := [] }
+  { committed := committed, wal := [], queues := List.replicate handles [], results := [], snaps := [] }
 
 /-- keys of a map are pairwise distinct (one copy of each id) -/
 def distinctKeys : Map ι δ → Bool
